@@ -131,8 +131,13 @@ def check_block_signatures(nodes: typing.List[ValidatorDescr], signatures: typin
 
     to_sign = b'pn\x0b\xc5' + blk.root_hash + blk.file_hash  # bytes.fromhex('c50b6e70')[::-1] - magic
     i = 0
+    seen = set()
     for sig in signatures:
-        node = node_map.get(bytes.fromhex(sig['node_id_short']))
+        node_id = bytes.fromhex(sig['node_id_short'])
+        if node_id in seen:
+            raise ProofError('duplicate signature')  # one validator must not be counted twice
+        seen.add(node_id)
+        node = node_map.get(node_id)
         node: ValidatorDescr
         i += 1
 
@@ -146,7 +151,7 @@ def check_block_signatures(nodes: typing.List[ValidatorDescr], signatures: typin
 
         signed_weight += node.weight
 
-    if signed_weight * 3 >= total_weight * 2:  # >= 2/3
+    if signed_weight * 3 > total_weight * 2:  # strictly more than 2/3 (an empty validator set proves nothing)
         return
 
     raise ProofError(f'Block {blk} has not been signed by 2/3 of validators')
